@@ -486,7 +486,7 @@ pub fn parse_copy_into(parser: &mut Parser) -> Result<Statement, ParserError> {
             // as
             from_stage_alias = if parser.parse_keyword(Keyword::AS) {
                 Some(match parser.next_token().token {
-                    Token::Word(w) => Ok(Ident::new(w.value)),
+                    Token::Word(w) => Ok(w.to_ident()),
                     _ => parser.expected("stage alias", parser.peek_token()),
                 }?)
             } else {
@@ -502,7 +502,7 @@ pub fn parse_copy_into(parser: &mut Parser) -> Result<Statement, ParserError> {
             // as
             from_stage_alias = if parser.parse_keyword(Keyword::AS) {
                 Some(match parser.next_token().token {
-                    Token::Word(w) => Ok(Ident::new(w.value)),
+                    Token::Word(w) => Ok(w.to_ident()),
                     _ => parser.expected("stage alias", parser.peek_token()),
                 }?)
             } else {
@@ -602,7 +602,7 @@ fn parse_select_items_for_data_load(
                 Ok(())
             }
             Token::Word(w) => {
-                alias = Some(Ident::new(w.value));
+                alias = Some(w.to_ident());
                 Ok(())
             }
             _ => parser.expected("alias or file_col_num", next_token),
@@ -627,10 +627,10 @@ fn parse_select_items_for_data_load(
         match parser.next_token().token {
             Token::Colon => {
                 // parse element
-                element = Some(Ident::new(match parser.next_token().token {
-                    Token::Word(w) => Ok(w.value),
+                element = Some(match parser.next_token().token {
+                    Token::Word(w) => Ok(w.to_ident()),
                     _ => parser.expected("file_col_num", parser.peek_token()),
-                }?));
+                }?);
             }
             _ => {
                 // element not present move back
@@ -641,7 +641,7 @@ fn parse_select_items_for_data_load(
         // as
         if parser.parse_keyword(Keyword::AS) {
             item_as = Some(match parser.next_token().token {
-                Token::Word(w) => Ok(Ident::new(w.value)),
+                Token::Word(w) => Ok(w.to_ident()),
                 _ => parser.expected("column item alias", parser.peek_token()),
             }?);
         }
